@@ -692,6 +692,15 @@ def check_account(case):
     else:
         raise HarnessError(kind)
     boc = refboc.encode(roots, has_crc=bool(case.get('crc', True)), has_idx=bool(case.get('idx', False)))
+    if case['seqno'] % 3 == 0:
+        # the bag stores hashes and depths with every cell. Honest proof: the genuine ones. Forged proof: the values the HONEST
+        # proof's cells have at the same positions (what a forger would copy) - stored values are never what is checked
+        honest_roots = [rc.merkle_proof(Bp), rc.merkle_proof(Sp)]
+        order_m = rc.topo(roots)
+        order_h = rc.topo(honest_roots)
+        donors = {i: order_h[i] for i in range(min(len(order_m), len(order_h)))} if not honest else {}
+        boc = refboc.encode(roots, has_crc=bool(case.get('crc', True)), has_idx=bool(case.get('idx', False)),
+                            with_hashes=set(range(len(order_m))), stored_from=donors, order=order_m)
     blk = BlockIdExt(wc, -2 ** 63, case['seqno'], block_hash, attacker_hash('file'))
     address = Address((wc, bytes.fromhex(addr_id)))
     ok, claimed_lib = (True, None) if claimed is None else call(dag.lib_from_rcell, claimed, 'builder')
